@@ -449,6 +449,53 @@ example : init 3 0 = none ∧ init 1 0 = none ∧ init 0 0 = none := by decide
 
 end MoreMpmc
 
+section Mono
+open OpenFGAVerif.Model.Mpmc OpenFGAVerif.Proofs.Mpmc
+
+theorem run_append (s : State) (as bs : List Action) : run s (as ++ bs) = run (run s as) bs := by
+  induction as generalizing s with
+  | nil => rfl
+  | cons a as ih =>
+    simp only [List.cons_append, run, runCount]
+    cases e : act s a with
+    | some s' => have := ih s'; simp only [run] at this; exact this
+    | none => have := ih s; simp only [run] at this; exact this
+
+theorem sent_prefix_step {s s' : State} {a : Action} (e : act s a = some s') :
+    ∃ l, s'.sent = s.sent ++ l := by
+  cases eff_act e with
+  | quiet q => exact ⟨[], by rw [q.sent]; simp⟩
+  | enq t pos v hpc hh e2 => subst e2; exact ⟨[v], rfl⟩
+  | deq t pos hpc hh e2 => subst e2; exact ⟨[], by simp [setPc]⟩
+  | read t pos hpc e2 => subst e2; exact ⟨[], by simp [setPc]⟩
+  | rret t v hpc h1 h2 h3 => exact ⟨[], by rw [h1.2.1]; simp⟩
+  | sret t v hpc h1 h2 h3 => exact ⟨[], by rw [h1.2.1]; simp⟩
+
+/-- **Real-time order.**  The linearisation order only grows at its end: whatever has been
+linearised after `as` stays a prefix after any continuation `bs`.  Hence a `Send` that returned
+true before another `Send` was called (its head CAS lies in `as`, the other's in `bs`) is ordered
+before it in `sent`, and by `mpmc_refines_fifo` is claimed by a receiver first. -/
+theorem mpmc_sent_prefix (s : State) (as bs : List Action) :
+    ∃ l, (run s (as ++ bs)).sent = (run s as).sent ++ l := by
+  rw [run_append]
+  generalize run s as = r
+  induction bs generalizing r with
+  | nil => exact ⟨[], by simp [run, runCount]⟩
+  | cons b bs ih =>
+    simp only [run, runCount]
+    cases e : act r b with
+    | some r' =>
+      obtain ⟨l1, h1⟩ := sent_prefix_step e
+      obtain ⟨l2, h2⟩ := ih r'
+      simp only [run] at h2
+      exact ⟨l1 ++ l2, by rw [h2, h1, List.append_assoc]⟩
+    | none =>
+      have := ih r
+      simp only [run] at this
+      exact this
+
+end Mono
+
 /-! ## mpsc.Accumulator -/
 section MpscTheorems
 open OpenFGAVerif.Model.Mpsc OpenFGAVerif.Proofs.Mpsc
